@@ -55,6 +55,8 @@ func runC18(e *Env) {
 		c.RuleIndexObligations(reach)
 		c.RuleLoopProgress(reach)
 	})
+	// the listed exception (object keys are strings) holds only if the reader consumes every member value completely
+	ruleSkipper(e, "C18.T1", e.P.Func("size", "decodeAndSkipNested"))
 	if len(roots) < 27 {
 		e.S.Unk("C18.T1", "(anchors)", "floor", "fewer than 27 entry points resolved", "")
 	}
